@@ -3,6 +3,9 @@ SM = "src/chuk_mcp/protocol/messages/send_message.py"
 ER = "src/chuk_mcp/protocol/types/errors.py"
 BA = "src/chuk_mcp/protocol/features/batching.py"
 FJ = "src/chuk_mcp/protocol/fast_json.py"
+ME = "src/chuk_mcp/server/session/memory.py"
+IN = "src/chuk_mcp/protocol/messages/initialize/send_messages.py"
+PH = "src/chuk_mcp/server/protocol_handler.py"
 SC = "src/chuk_mcp/transports/stdio/stdio_client.py"
 JR = "src/chuk_mcp/protocol/messages/json_rpc_message.py"
 
@@ -52,4 +55,28 @@ MUTANTS = [
     {"prop": "C17", "name": "stdlib_loads_float_ints", "edits": [(FJ, "        if isinstance(s, bytes):\n            s = s.decode(\"utf-8\")\n        return _stdlib_json.loads(s)\n\n\ndef dump(", "        if isinstance(s, bytes):\n            s = s.decode(\"utf-8\")\n        return _stdlib_json.loads(s, parse_int=lambda x: int(x) if len(x) < 17 else float(x))\n\n\ndef dump(")]},
     {"prop": "C17", "name": "orjson_strict_integer_no_fallback", "edits": [(FJ, "            options = 0\n            if kwargs.get(\"indent\"):\n                options |= _orjson.OPT_INDENT_2\n\n            return _orjson.dumps(obj, option=options).decode(\"utf-8\")\n        except Exception as e:", "            options = _orjson.OPT_STRICT_INTEGER\n            if kwargs.get(\"indent\"):\n                options |= _orjson.OPT_INDENT_2\n\n            return _orjson.dumps(obj, option=options).decode(\"utf-8\")\n        except RecursionError as e:")]},
     {"prop": "C17", "name": "stdlib_loads_latin1_bytes", "edits": [(FJ, "        # Use stdlib json\n        if isinstance(s, bytes):\n            s = s.decode(\"utf-8\")", "        # Use stdlib json\n        if isinstance(s, bytes):\n            s = s.decode(\"latin-1\")")]},
+    # ---- C19 ----
+    {"prop": "C19", "name": "expiry_ge", "edits": [(ME, "if now - session.last_activity > max_age", "if now - session.last_activity >= max_age")]},
+    {"prop": "C19", "name": "list_returns_store", "edits": [(ME, "        return self.sessions.copy()", "        return self.sessions")]},
+    {"prop": "C19", "name": "update_creates_missing", "edits": [(ME, "            self.sessions[session_id].last_activity = time.time()\n            return True\n        return False", "            self.sessions[session_id].last_activity = time.time()\n            return True\n        self.sessions[session_id] = SessionInfo(session_id, {}, \"\", time.time(), time.time(), {})\n        return False")]},
+    {"prop": "C19", "name": "truncated_ids", "edits": [("src/chuk_mcp/server/session/base.py", "return str(uuid.uuid4()).replace(\"-\", \"\")", "return str(uuid.uuid4()).replace(\"-\", \"\")[:4]")]},
+    {"prop": "C19", "name": "expiry_uses_created_at", "edits": [(ME, "if now - session.last_activity > max_age", "if now - session.created_at > max_age")]},
+    {"prop": "C19", "name": "delete_keeps_when_recent", "edits": [(ME, "        if session_id in self.sessions:\n            del self.sessions[session_id]\n            return True", "        if session_id in self.sessions:\n            if len(self.sessions) > 1:\n                del self.sessions[session_id]\n            return True")]},
+    {"prop": "C19", "name": "dispatch_skips_activity_update", "edits": [("src/chuk_mcp/server/protocol_handler.py", "        if session_id:\n            self.session_manager.update_activity(session_id)", "        if session_id and method != \"ping\":\n            self.session_manager.update_activity(session_id)")]},
+    {"prop": "C19", "name": "initialize_drops_client_info", "edits": [("src/chuk_mcp/server/protocol_handler.py", "        client_info = params.get(\"clientInfo\", {})", "        client_info = dict(params.get(\"clientInfo\", {}), version=\"?\")")]},
+    {"prop": "C19", "name": "shared_metadata_default", "edits": [(ME, "            metadata=metadata or {},", "            metadata=metadata or _SHARED,"), (ME, "class InMemorySessionManager(BaseSessionManager):", "_SHARED: dict = {}\n\n\nclass InMemorySessionManager(BaseSessionManager):")]},
+    # ---- C03 ----
+    {"prop": "C03", "name": "accept_any_answer", "edits": [(IN, "        elif server_version in supported_versions:", "        elif server_version in supported_versions or server_version.startswith(\"2026\"):")]},
+    {"prop": "C03", "name": "initialized_before_validation", "edits": [(IN, "        # Parse the response\n        init_result = InitializeResult.model_validate(response)\n", "        await send_initialized_notification(write_stream)\n        # Parse the response\n        init_result = InitializeResult.model_validate(response)\n"), (IN, "        # Send initialized notification to complete handshake (per spec)\n        await send_initialized_notification(write_stream)\n", "")]},
+    {"prop": "C03", "name": "propose_last", "edits": [(IN, "        proposed_version = supported_versions[0]", "        proposed_version = supported_versions[-1]")]},
+    {"prop": "C03", "name": "skip_set_protocol_version", "edits": [(IN, "        client.set_protocol_version(result.protocolVersion)", "        pass")]},
+    {"prop": "C03", "name": "initialized_twice", "edits": [(IN, "        await send_initialized_notification(write_stream)\n\n        logging.debug(f\"MCP initialization complete", "        await send_initialized_notification(write_stream)\n        if server_version != proposed_version:\n            await send_initialized_notification(write_stream)\n\n        logging.debug(f\"MCP initialization complete")]},
+    {"prop": "C03", "name": "preferred_not_checked_against_list", "edits": [(IN, "    if preferred_version and preferred_version in supported_versions:", "    if preferred_version:")]},
+    {"prop": "C03", "name": "returned_version_is_proposed", "edits": [(IN, "        return init_result\n\n    except VersionMismatchError:", "        init_result.protocolVersion = proposed_version\n        return init_result\n\n    except VersionMismatchError:")]},
+    # ---- C04 ----
+    {"prop": "C04", "name": "revert_fix", "edits": [(PH, "            and ProtocolVersion.is_supported(protocol_version)\n        ):", "            and ProtocolVersion.is_supported(protocol_version)\n        ) and False:")]},
+    {"prop": "C04", "name": "always_latest", "edits": [(PH, "            isinstance(protocol_version, str)\n            and ProtocolVersion.is_supported(protocol_version)\n        ):", "            isinstance(protocol_version, str)\n            and protocol_version == ProtocolVersion.get_latest_supported()\n        ):")]},
+    {"prop": "C04", "name": "session_stores_requested", "edits": [(PH, "        new_session_id = self.session_manager.create_session(\n            client_info, protocol_version\n        )", "        new_session_id = self.session_manager.create_session(\n            client_info, params.get(\"protocolVersion\", protocol_version)\n        )")]},
+    {"prop": "C04", "name": "format_check_only", "edits": [(PH, "            and ProtocolVersion.is_supported(protocol_version)\n        ):", "            and ProtocolVersion.validate_format(protocol_version)\n        ):")]},
+    {"prop": "C04", "name": "supported_prefix_match", "edits": [(PH, "            and ProtocolVersion.is_supported(protocol_version)\n        ):", "            and any(protocol_version.startswith(v[:7]) for v in ProtocolVersion.get_all_supported())\n        ):")]},
 ]
